@@ -166,8 +166,13 @@ struct LBufMeta {
   }
   static Value to_value(const Buf& b, const Size& n) {
     size_t cnt = (n < 0) ? 0 : (size_t)n;
+    const bool bad = n < 0 || cnt > (size_t)Cap;
     if (cnt > (size_t)Cap) cnt = (size_t)Cap;
-    return detail::seq_to_value<E>(&b[0], cnt);
+    Value v = detail::seq_to_value<E>(&b[0], cnt);
+    // an out-of-range size member is reported through the raw-size hook (see from_value), so that a
+    // check can tell "logically empty" from "size member invalid"
+    if (bad) v.tag = n < 0 ? -1 : (cnt + 1 > 0x7fffffff ? 0x7fffffff : (int)std::min<unsigned long long>((unsigned long long)n, 0x7fffffffull));
+    return v;
   }
   static void from_value(const Value& v, Buf& b, Size& n) {
     size_t cnt = detail::seq_count<E>(v);
